@@ -927,6 +927,17 @@ def method_model(ip, o, name, args, kwargs):
             return d
         if name == 'copy':
             return hdict_copy(ip, o)
+        if name == 'clear':
+            ip.heap_write_guard()
+            o.maps = {sp: z3.K(srt, VAL.absent) for sp, srt in HDict.SPACES.items()}
+            return None
+        if name == 'update' and len(args) == 1:
+            ip.heap_write_guard()
+            src = ip.resolve(args[0])
+            if isinstance(src, dict):
+                src = hdict_from_concrete(ip, src)
+            o.maps = hdict_overlay(ip, o, src).maps
+            return None
         if name == 'pop' and len(args) == 2:
             sp, ke = key_space(ip, args[0])
             if sp is None:
@@ -1384,6 +1395,11 @@ def m_all(ip, it):
 
 def m_any(ip, it):
     it = ip.resolve(it)
+    if isinstance(it, ZList) and sym.concrete_int(it.ln) is None:
+        # any() over a list of symbolic length: an unknown boolean, false for the empty list
+        b = fresh('any', z3.BoolSort())
+        ip.ctx.define(z3.Implies(zint(it.ln) <= 0, z3.Not(b)))
+        return b
     vals = [ip.truth(x) for x in ip.iter_concrete(it)]
     if any(v is True for v in vals):
         return True
